@@ -40,6 +40,8 @@ type World struct {
 
 	// RoundTrip hook: returns the response for a request (default: 200 with a small body).
 	Respond func(req *http.Request) (*http.Response, error)
+	// Wrap, if set, wraps the simnet listener before Serve (e.g. trafficshape.NewListener).
+	Wrap func(net.Listener) net.Listener
 	// Optional extra behaviour inside the modifiers.
 	OnRequest  func(req *http.Request) error
 	OnResponse func(res *http.Response) error
@@ -58,8 +60,12 @@ func NewWorld() *World {
 
 // Start launches the accept loop.
 func (w *World) Start() {
+	var l net.Listener = w.L
+	if w.Wrap != nil {
+		l = w.Wrap(w.L)
+	}
 	w.ServeT = vrt.GoNamed("serve", func() {
-		w.ServeErr = w.Proxy.Serve(w.L)
+		w.ServeErr = w.Proxy.Serve(l)
 		w.ServeRet = true
 	})
 }
